@@ -88,12 +88,20 @@ package fiber
 //   root: the code clears the flag as well; for the key "/" Route.match falls through to comparisons that give
 //     the same answer (bounded stand-in, part E: no disagreement), so only soundness of the shortcut is demanded.
 //@ func (*App).addPrefixToRoute
+//@   props C04 C01
 //@   requires route-given: route != nil
 // (frame: the six fields of the clone; the rest is the frame of parseRoute, which builds the parser in place)
 //@   modifies route.Path, route.path, route.Params, fields(route.routeParser), route.root, route.star,
 //@ ..   routeParser.wildCardCount, routeParser.plusCount, heap(E_string), heap(E_p_fiber_Constraint), heap(E_p_fiber_routeSegment),
 //@ ..   routeSegment.ComparePart, routeSegment.Length, routeSegment.PartCount, routeSegment.HasOptionalSlash, routeSegment.IsLast
 //@   ensures same-route: result == route
+// C01: the ONE invariant of a route that dispatch rests on (routeAsRegistered, zz_contracts_verif.go, C01 block) - the
+// relation register establishes for a directly registered route: the parser is the parse of the NORMAL FORM of the
+// prefixed path (the text Route.match compares and buildTree takes the bucket key from), the names are those of the
+// prefixed path as registered. A clone whose parser was built from the un-normalised path is filed by buildTree under a
+// key that no request's (folded, trimmed) detection path produces and is never reached.
+// (Stated before its parts key-as-registered, star-as-registered ...: an obligation is assumed once asserted.)
+//@   ensures [C01 C04] route-as-registered: routeAsRegistered(app, route)
 //@   ensures path-is-prefix-joined: route.Path == joinedPath(prefix, old(route.Path))
 //@   ensures key-as-registered: keyAsRegistered(app, route)
 //@   ensures root-shortcut-sound: route.root ==> route.path == "/"
